@@ -199,13 +199,40 @@ func compareHierarchy(img isoImage, node *isoNode, dir string, joliet bool, path
 		}
 		match(s, found)
 	}
-	// non-portable names: match by kind and size (and content through match)
+	// non-portable names (mapped by the generator in an unspecified way): an image entry is the counterpart of a
+	// source entry if a trial comparison of the two finds no difference; only if no candidate fits is the first
+	// candidate of the right kind and size used (and its differences reported)
+	trial := func(s srcEntry, c *isoNode) bool {
+		if c.IsDir != s.isDir {
+			return false
+		}
+		var tp isoProblems
+		if s.isDir {
+			compareHierarchy(img, c, s.path, joliet, path+"/"+s.name, &tp)
+		} else {
+			if c.Size != s.size {
+				return false
+			}
+			if d := fileContentEqual(img, c, s.path, s.size); d != "" {
+				return false
+			}
+		}
+		return len(tp.list) == 0
+	}
 	for _, s := range pending {
 		found := -1
 		for ci, c := range node.Children {
-			if !used[ci] && c.IsDir == s.isDir && (s.isDir || c.Size == s.size) {
+			if !used[ci] && trial(s, c) {
 				found = ci
 				break
+			}
+		}
+		if found < 0 {
+			for ci, c := range node.Children {
+				if !used[ci] && c.IsDir == s.isDir && (s.isDir || c.Size == s.size) {
+					found = ci
+					break
+				}
 			}
 		}
 		if found < 0 {
